@@ -1,17 +1,20 @@
 #!/bin/sh
 # confirm a seeded change in a scratch worktree: applies, builds, suite passes, demo fails with / passes without.
-# usage: lib/seeded_confirm.sh <ID> <A|B>      (patch /work/seeded/<ID>.<X>.patch, demo /work/seeded/<ID>.<X>.demo)
+# usage: lib/seeded_confirm.sh <ID> <A|B> [basedir]   (patch <basedir>/<ID>.<X>.patch, demo <basedir>/<ID>.<X>.demo,
+#                                                      worktree <basedir>/<ID> or <basedir>/wt-<ID>, created if missing)
 set -u
-ID=$1; X=$2
-WT=/work/seeded/wt-$ID
-P=/work/seeded/$ID.$X.patch
-D=/work/seeded/$ID.$X.demo
-LOG=/work/seeded/$ID.$X.confirm.log
+ID=$1; X=$2; B=${3:-/work/seeded}
+WT=$B/$ID; [ -d "$WT/.git" ] || [ -f "$WT/.git" ] || WT=$B/wt-$ID
+[ -e "$WT/.git" ] || git -C /repo worktree add -q --detach $WT HEAD
+P=$B/$ID.$X.patch
+D=$B/$ID.$X.demo
+LOG=$B/$ID.$X.confirm.log
 : > $LOG
 cd $WT || exit 2
-git checkout -q -- . 
+git checkout -q -- .
 echo "== unchanged: demo" >> $LOG
 (cargo build --offline -q 2>>$LOG; bash $D/run.sh >> $LOG 2>&1); base=$?
+git checkout -q -- .
 git apply $P || { echo "patch does not apply" >> $LOG; echo "$ID.$X apply-failed"; exit 1; }
 echo "== patched: build" >> $LOG
 cargo build --offline -q 2>>$LOG; build=$?
@@ -21,4 +24,5 @@ passed=$(grep "test result" $LOG.tests | awk '{p+=$4; f+=$6} END {print p" "f}')
 echo "== patched: demo" >> $LOG
 bash $D/run.sh >> $LOG 2>&1; mut=$?
 git checkout -q -- .
+git clean -fdq -e target 2>/dev/null
 echo "$ID.$X base_demo_exit=$base build_exit=$build tests(passed failed)=$passed patched_demo_exit=$mut"
